@@ -8,6 +8,7 @@ import (
 	"io"
 	"io/ioutil"
 	"math/big"
+	"os"
 	"strings"
 	"time"
 
@@ -1442,17 +1443,27 @@ func (n *node) follow(what string) (outcome, error) {
 // ---------------------------------------------------------------------------------------------
 
 func runScenario(w *world, sc kit.Scenario, settleMax time.Duration, emit func(kit.Ev), mark func(kit.Ev)) error {
+	t0 := time.Now()
+	var tSetup, tOps, tSettle time.Duration
 	n, err := w.newNode(sc.Par, sc.Scn)
 	if err != nil {
 		return err
 	}
-	defer n.close()
 	mt, pre := kit.Str(sc.Par, "mt"), kit.Str(sc.Par, "pre")
+	defer func() {
+		t1 := time.Now()
+		n.close()
+		if os.Getenv("VERIF_TIMING") != "" {
+			fmt.Fprintf(os.Stderr, "TIMING %s %s setup=%v ops=%v settle=%v close=%v\n", mt, pre, tSetup, tOps, tSettle, time.Since(t1))
+		}
+	}()
 	group := groupOf(mt)
 	if err := n.setup(group, pre); err != nil {
 		return fmt.Errorf("setup %s/%s: %w", mt, pre, err)
 	}
 	baseline := goroutines()
+	tSetup = time.Since(t0)
+	t0 = time.Now()
 	for _, op := range sc.Ops {
 		name := kit.Str(op, "op")
 		switch name {
@@ -1493,6 +1504,9 @@ func runScenario(w *world, sc kit.Scenario, settleMax time.Duration, emit func(k
 			return fmt.Errorf("unknown op %q", name)
 		}
 	}
+	tOps = time.Since(t0)
+	t0 = time.Now()
 	settle(baseline, settleMax)
+	tSettle = time.Since(t0)
 	return nil
 }
